@@ -1,6 +1,6 @@
 (* C17 — Pub/sub delivers exactly to matching member subscriptions and leaks no state.
    Only property theorems (closed by [exact]), non-vacuity examples and [Print Assumptions].
-   Models: Model/Trie.v, Model/PubSub.v; proofs: Proofs/Trie*.v, Proofs/PubSub*.v. *)
+   Models: Model/Trie.v, Model/PubSub.v, Model/PubSubClient.v; proofs: Proofs/Trie*.v, Proofs/PubSub*.v. *)
 From Coq Require Import List NArith Bool Arith.
 Import ListNotations.
 From AnySync Require Import Model.Trie Proofs.TrieProofs Proofs.TrieValidate.
@@ -82,15 +82,7 @@ Theorem c17_model_satisfies_spec_validate : forall s,
 Proof. exact validate_model_spec. Qed.
 Print Assumptions c17_model_satisfies_spec_validate.
 
-(* ---- serving-side bookkeeping (Model/PubSub.v) ------------------------------------------------ *)
-(* FULL STATEMENTS (c17_views_agree, c17_delivery_exact, c17_teardown_empty), not yet proved as theorems:
-     forall c evs, spec_C17_svc c evs (svc_run c svc_init evs) = true
-   i.e. for every event sequence the model's outputs satisfy the declarative predicate: every snapshot
-   shows tags = per-stream record = trie contribution = the registered set [p_reg], a publish is delivered
-   exactly to the pooled streams with a matching registered pattern iff the ingress checks pass, at most
-   once per stream, relayed input is never forwarded, and after withdrawing everything all three views
-   are empty.  What IS checked on every run: spec_C17_svc on the REAL service's observed outputs and
-   model = implementation on the same histories.  Proved below: the defect found by that predicate. *)
+(* ---- serving side: the defect found by the declarative predicate, and its repair ------------------- *)
 From AnySync Require Import Model.PubSub.
 
 Definition c17_leak_witness : list ev :=
@@ -129,3 +121,314 @@ Example c17_service_nonvacuous :
      ONone; ONone; OSnap [] [] [(1%N, []); (3%N, [])]]
   /\ spec_C17_svc c evs (svc_run c svc_init evs) = true.
 Proof. vm_compute. split; reflexivity. Qed.
+
+(* ---- serving-side bookkeeping (Model/PubSub.v; proofs in Proofs/PubSub{Base,Inv,Step,Step2,Thm,Sub,Spec}.v) ---- *)
+(* All theorems below quantify over EVERY configuration and EVERY event sequence (open / subscribe /
+   unsubscribe / publish direct+relayed+malformed / close / break / evict / revalidate / close-space /
+   set-member / snapshot, any strings).  The only hypothesis is [fresh_opens evs]: a stream id is opened
+   at most once (the pool allocates ids from a counter).
+   Vocabulary: [has s sid space p]  — p is in bySpace[space] of the stream record of sid (the registered
+   interest); tags are [sv_pool s]; the space tries are [sv_remote s].
+
+   The monolithic statement (the model's outputs satisfy the declarative predicate that is applied to
+   the real service's observed outputs on every run) is c17_model_satisfies_spec_svc; its
+   property-language content is c17_views_agree / c17_delivery_exact / c17_subscribe_registers /
+   c17_withdraw_step / c17_teardown_*. *)
+From AnySync Require Import Model.PubSub Proofs.PubSubInv Proofs.PubSubThm Proofs.PubSubSub Proofs.PubSubSpec.
+
+(* for every configuration and every event sequence, the serving-side model satisfies the executable
+   property predicate (every snapshot: tags = per-stream record = trie contribution = the registered set;
+   every Subscribe reply; every publish: delivered exactly to the pooled streams with a matching
+   registered pattern iff the ingress checks pass, once per stream, forwarded iff accepted and direct) *)
+Theorem c17_model_satisfies_spec_svc : forall c evs, fresh_opens evs ->
+  spec_C17_svc c evs (svc_run c svc_init evs) = true.
+Proof. exact model_satisfies_spec_svc. Qed.
+Print Assumptions c17_model_satisfies_spec_svc.
+
+(* the hypothesis is needed: re-opening a live stream id (which the pool never does) resets its tags while
+   its record stays, and the predicate rejects the next snapshot *)
+Example c17_model_satisfies_spec_svc_needs_fresh :
+  let c := mkCfg 100 1000 1000 [0%N] [] [[120%N]] in
+  let evs := [EOpen 1 0; ESetMember 0 0 true; ESub 1 0 [[97%N]]; EOpen 1 0; ESnap] in
+  spec_C17_svc c evs (svc_run c svc_init evs) = false /\ ~ fresh_opens evs.
+Proof.
+  cbv zeta. split; [vm_compute; reflexivity|]. unfold fresh_opens. cbn [opens]. intros H. inversion H as [|x l Hn _]; subst.
+  apply Hn. left. reflexivity.
+Qed.
+
+(* (a) the three views of interest agree after any history: tag <-> per-stream record; the record exists
+   only for a pooled stream under its handshake account, is never empty, total = number of patterns;
+   record <-> exactly one reference in the space trie (the terminal node of p counts the stream records
+   holding p); a trie exists iff some stream has interest in the space, is non-empty, and its Len is the
+   number of distinct registered patterns. *)
+Theorem c17_views_agree : forall c evs, fresh_opens evs ->
+  let s := svc_exec c svc_init evs in
+  forall sid space p,
+  (forall tags, nassoc sid (sv_pool s) = Some tags ->
+     NoDup tags /\ (In (space, p) tags <-> has s sid space p = true))
+  /\ (forall st, nassoc sid (sv_streams s) = Some st ->
+        in_pool s sid = true /\ nassoc sid (sv_conns s) = Some (ss_account st)
+        /\ ss_by st <> [] /\ ss_total st = N.of_nat (tot (ss_by st))
+        /\ (forall sp l, nassoc sp (ss_by st) = Some l -> l <> [] /\ NoDup l))
+  /\ match nassoc space (sv_remote s) with
+     | Some tr =>
+         refs_at (root tr) (split_topic p)
+           = N.of_nat (length (filter (fun e => st_has (snd e) space p) (sv_streams s)))
+         /\ trie_is_empty tr = false
+         /\ exists L, NoDup L /\ (forall q, In q L <-> exists sid', has s sid' space q = true)
+                      /\ trie_len tr = N.of_nat (length L) /\ L <> []
+     | None => forall sid' q, has s sid' space q = false
+     end
+  /\ NoDup (map fst (sv_streams s)) /\ NoDup (map fst (sv_pool s)).
+Proof. exact views_agree. Qed.
+Print Assumptions c17_views_agree.
+
+(* what a snapshot event reports is exactly these three views of the reached state *)
+Theorem c17_snapshot_shows_views : forall c evs,
+  let s := svc_exec c svc_init evs in
+  last (svc_run c svc_init (evs ++ [ESnap])) ONone
+  = OSnap (map (fun e => (fst e, (trie_len (snd e), trie_is_empty (snd e)))) (sv_remote s))
+          (map (fun e => (fst e, (ss_account (snd e), ss_total (snd e), ss_by (snd e)))) (sv_streams s))
+          (sv_pool s).
+Proof. exact snapshot_last. Qed.
+
+(* (b) delivery is exact.  A Publish frame arriving (after any history) on a stream whose read loop runs
+   under handshake account [acct] is written to stream sigma IFF the ingress checks pass
+   ([ingress]: well-formed frame, canonical topic, responsible node; relayed: sender is a responsible
+   node; direct: message identity = handshake identity, member, owner of an acc/ topic, token available)
+   AND sigma is pooled AND some currently registered pattern of sigma in that space matches the topic by
+   the rule; at most one copy per stream; forwarded to the other nodes iff accepted and not relayed. *)
+Theorem c17_delivery_exact : forall c evs, fresh_opens evs ->
+  let s := svc_exec c svc_init evs in
+  forall sid acct space topic claim relayed wf,
+  nassoc sid (sv_conns s) = Some acct ->
+  exists delivered status forwarded,
+    last (svc_run c svc_init (evs ++ [EPub sid space topic claim relayed wf])) ONone
+      = OPub delivered status forwarded
+    /\ NoDup delivered
+    /\ (forall sigma, In sigma delivered <->
+          (ingress c s sid acct space topic claim relayed wf = true
+           /\ in_pool s sigma = true
+           /\ exists p, has s sigma space p = true /\ spec_matches p topic = true))
+    /\ forwarded = (ingress c s sid acct space topic claim relayed wf && negb relayed)
+    /\ (relayed = true -> forwarded = false).
+Proof. exact delivery_exact. Qed.
+Print Assumptions c17_delivery_exact.
+
+(* non-vacuity of (a)/(b): a reachable state with two subscribers; an accepted direct publish (ingress
+   true) is delivered to exactly the matching one and forwarded; the same frame relayed by a non-node,
+   or with a foreign identity, passes no ingress check and reaches nobody *)
+Example c17_delivery_exact_nonvacuous :
+  let a := 97%N in let b := 98%N in
+  let c := mkCfg 100 1000 1000 [0%N] [3%N] [[120%N]; [121%N]] in
+  let evs := [EOpen 1 0; EOpen 2 1; EOpen 3 1; ESetMember 0 0 true; ESetMember 0 1 true;
+              ESub 1 0 [[a; SLASH; STAR]; [a; SLASH; GT]]; ESub 2 0 [[b]]] in
+  let s := svc_exec c svc_init evs in
+  fresh_opens evs
+  /\ nassoc 2%N (sv_conns s) = Some 1%N
+  /\ ingress c s 2 1 0 [a; SLASH; b] 2 false true = true
+  /\ ingress c s 2 1 0 [a; SLASH; b] 1 false true = false
+  /\ ingress c s 2 1 0 [a; SLASH; b] 2 true true = false
+  /\ has s 1 0 [a; SLASH; STAR] = true /\ has s 2 0 [a; SLASH; STAR] = false
+  /\ spec_matches [a; SLASH; STAR] [a; SLASH; b] = true
+  /\ last (svc_run c svc_init (evs ++ [EPub 2 0 [a; SLASH; b] 2 false true])) ONone = OPub [1%N] None true
+  /\ nassoc 1%N (sv_pool s) = Some [(0%N, [a; SLASH; STAR]); (0%N, [a; SLASH; GT])].
+Proof.
+  cbv zeta. split; [|vm_compute; repeat split; reflexivity].
+  unfold fresh_opens. cbn [opens]. repeat constructor; cbn [In]; intros H; repeat destruct H as [H|H]; try discriminate; exact H.
+Qed.
+
+(* the registered interest grows only by Subscribe: nothing is lost, only requested patterns of an
+   eligible (running read loop, responsible node, valid patterns, member) and still pooled subscriber are
+   added, to its own stream and space; every requested pattern is registered unless reported back *)
+Theorem c17_subscribe_registers : forall c evs sid space pats, fresh_opens evs ->
+  let s := svc_exec c svc_init evs in
+  let s' := fst (handle_sub c s sid space pats) in
+  let o := snd (handle_sub c s sid space pats) in
+  (forall sigma sp0 q, has s sigma sp0 q = true -> has s' sigma sp0 q = true)
+  /\ (forall sigma sp0 q, has s' sigma sp0 q = true -> has s sigma sp0 q = true
+        \/ (sigma = sid /\ sp0 = space /\ In q pats /\ in_pool s sid = true /\ sub_eligible c s sid space pats = true))
+  /\ (in_pool s sid = true -> sub_eligible c s sid space pats = true ->
+      forall q, In q pats ->
+        has s' sid space q = true \/ exists rejected, o = OStatus TooManyTopics rejected /\ In q rejected).
+Proof. exact (fun c evs sid space pats H => has_sub c _ sid space pats (reachable_inv c evs H)). Qed.
+Print Assumptions c17_subscribe_registers.
+
+(* every other event only removes interest, and removes what it is meant to remove ([withdraws]:
+   Unsubscribe of the pattern / of all, Close or Break of the stream, Evict of the stream's account,
+   Revalidate while the account is not a member, CloseSpace) *)
+Theorem c17_withdraw_step : forall c evs e, fresh_opens (evs ++ [e]) -> is_sub e = false ->
+  let s := svc_exec c svc_init evs in
+  let s' := svc_exec c svc_init (evs ++ [e]) in
+  (forall sigma sp q, has s' sigma sp q = true -> has s sigma sp q = true)
+  /\ (forall sigma sp q, withdraws s e sigma sp q -> has s' sigma sp q = false).
+Proof. exact withdraw_step. Qed.
+Print Assumptions c17_withdraw_step.
+
+(* (c) teardown.  No registered interest left  =>  no trie, no stream record, no interest tag. *)
+Theorem c17_teardown_empty : forall c evs, fresh_opens evs ->
+  let s := svc_exec c svc_init evs in
+  (forall sid sp p, has s sid sp p = false) ->
+  sv_remote s = [] /\ sv_streams s = [] /\ forall sid tags, nassoc sid (sv_pool s) = Some tags -> tags = [].
+Proof. exact teardown_no_interest. Qed.
+Print Assumptions c17_teardown_empty.
+
+(* ... in any order: after ANY history, a tail without Subscribe in which every registered interest is
+   withdrawn by SOME event (anywhere in the tail, interleaved with anything) leaves all three views empty *)
+Theorem c17_teardown_any_order : forall c evs tail,
+  fresh_opens (evs ++ tail) ->
+  forallb (fun e => negb (is_sub e)) tail = true ->
+  (forall sigma sp q, has (svc_exec c svc_init evs) sigma sp q = true ->
+     exists pre e post, tail = pre ++ e :: post
+                        /\ withdraws (svc_exec c svc_init (evs ++ pre)) e sigma sp q) ->
+  let s := svc_exec c svc_init (evs ++ tail) in
+  sv_remote s = [] /\ sv_streams s = [] /\ forall sid tags, nassoc sid (sv_pool s) = Some tags -> tags = [].
+Proof. exact teardown_any_order. Qed.
+Print Assumptions c17_teardown_any_order.
+
+(* non-vacuity of the any-order teardown: two streams, two spaces, overlapping patterns; withdrawn by an
+   unsubscribe-all, a CloseSpace and a stream close, interleaved with a publish and a snapshot *)
+Example c17_teardown_any_order_nonvacuous :
+  let a := 97%N in let b := 98%N in
+  let c := mkCfg 100 1000 1000 [0%N; 1%N] [] [[120%N]; [121%N]] in
+  let evs := [EOpen 1 0; EOpen 2 1; ESetMember 0 0 true; ESetMember 0 1 true; ESetMember 1 1 true;
+              ESub 1 0 [[a; SLASH; STAR]; [b]]; ESub 2 0 [[a; SLASH; STAR]]; ESub 2 1 [[GT]]] in
+  let tail := [EClose 2; EPub 1 0 [b] 1 false true; EUnsub 1 0 []; ESnap; ECloseSpace 1] in
+  fresh_opens (evs ++ tail)
+  /\ has (svc_exec c svc_init evs) 1 0 [b] = true /\ has (svc_exec c svc_init evs) 2 1 [GT] = true
+  /\ map fst (sv_remote (svc_exec c svc_init evs)) = [0%N; 1%N]
+  /\ last (svc_run c svc_init (evs ++ tail ++ [ESnap])) ONone = OSnap [] [] [(1%N, [])].
+Proof.
+  cbv zeta. split; [|vm_compute; repeat split; reflexivity].
+  unfold fresh_opens. cbn [app opens]. repeat constructor; cbn [In]; intros H; repeat destruct H as [H|H]; try discriminate; exact H.
+Qed.
+
+(* ---- client receive chain (Model/PubSubClient.v; proofs: Proofs/PubSubClient.v, Proofs/PubSubClientSpec.v) ---- *)
+(* "forged, replayed or stale messages never reach a handler": handlePublish (client role) / receivePublish /
+   isStale / sign.go / dedup.go.  Signatures are symbolic ([SigOf k d] = made with the key of account k over
+   the bytes d; unforgeability is the assumption this abstraction embodies). *)
+From Coq Require Import ZArith.
+From AnySync Require Import Model.PubSubClient Proofs.PubSubClient.
+
+(* The signed byte string is uniquely decodable: "anysync:pubsub:v1" ++ four fields each prefixed with its
+   length as 4 little-endian bytes ++ 8 little-endian bytes of the timestamp ++ payload.
+   Hypotheses (visible): the four variable-length fields are shorter than 2^32 bytes (Go truncates
+   uint32(len f)) and the timestamp is an int64. *)
+Theorem c17_signdata_injective : forall m1 m2,
+  short_msg m1 -> short_msg m2 -> sign_data m1 = sign_data m2 ->
+  m_space m1 = m_space m2 /\ m_topic m1 = m_topic m2 /\ m_id m1 = m_id m2 /\ m_key m1 = m_key m2
+  /\ m_ts m1 = m_ts m2 /\ m_payload m1 = m_payload m2.
+Proof. exact signdata_injective. Qed.
+Print Assumptions c17_signdata_injective.
+
+Example c17_signdata_injective_nonvacuous :
+  let m := mkMsg [115; 97]%N [98]%N (repeat 7%N 16) [] 1790000000000%Z [1; 200]%N (Some 1%N) (SigJunk 0) in
+  let m' := mkMsg [115]%N [97; 98]%N (repeat 7%N 16) [] 1790000000000%Z [1; 200]%N (Some 1%N) (SigJunk 0) in
+  short_msg m /\ short_msg m' /\ sign_data m <> sign_data m'
+  /\ m_space m ++ m_topic m = m_space m' ++ m_topic m'       (* unprefixed concatenation would collide *)
+  /\ length (sign_data m) = (17 + 4 * 4 + 8 + 2 + 1 + 16 + 0 + 2)%nat.
+Proof.
+  cbv zeta. split; [|split; [|split; [|split]]].
+  - repeat split; vm_compute; reflexivity || (intro; discriminate).
+  - repeat split; vm_compute; reflexivity || (intro; discriminate).
+  - vm_compute. discriminate.
+  - reflexivity.
+  - vm_compute. reflexivity.
+Qed.
+
+(* In ANY run from ANY state, if a handler ran for the i-th event (the arrival of message m at time now), then
+   in the state just before it: the id has 16 bytes, the payload is within bounds, the topic is valid, a local
+   pattern matches, the claimed identity k parses, k is a member of the space, the acc/ owner (if any) is k's
+   account, the timestamp is not stale, and the signature IS SigOf k (sign_data m): made with k's key over
+   exactly the bytes of this message.  [passes_1_6] is that conjunction (Proofs/PubSubClient.v). *)
+Theorem c17_forged_dropped : forall c st0 evs i now m,
+  nth_error evs i = Some (CRecv now m) ->
+  delivered (nth i (client_run c st0 evs) ONoneC) ->
+  passes_1_6 c (client_exec c st0 (firstn i evs)) now m.
+Proof. exact forged_dropped. Qed.
+Print Assumptions c17_forged_dropped.
+
+(* ... and, by injectivity, the signature covers exactly the six fields as received *)
+Theorem c17_forged_dropped_fields : forall c st0 evs i now m k m',
+  nth_error evs i = Some (CRecv now m) ->
+  delivered (nth i (client_run c st0 evs) ONoneC) ->
+  m_sig m = SigOf k (sign_data m') -> short_msg m -> short_msg m' ->
+  m_ident m = Some k
+  /\ m_space m = m_space m' /\ m_topic m = m_topic m' /\ m_id m = m_id m' /\ m_key m = m_key m'
+  /\ m_ts m = m_ts m' /\ m_payload m = m_payload m'.
+Proof. exact forged_dropped_fields. Qed.
+Print Assumptions c17_forged_dropped_fields.
+
+(* The dedup ring is EXACTLY "the last DedupSize recorded ids" after any event sequence
+   ([recorded c evs] = ids of own publishes and of received messages that passed checks 1-6 and were not
+   suppressed, in order); a message that passes checks 1-6 is suppressed IFF its id is in that window. *)
+Theorem c17_ring_invariant : forall c evs,
+  (0 < cc_ring c)%N ->
+  ring_inv (N.to_nat (cc_ring c)) (c_ring (client_exec c (cinit c) evs)) (recorded c evs).
+Proof. exact ring_invariant. Qed.
+Print Assumptions c17_ring_invariant.
+
+Theorem c17_replay_window : forall c evs now m,
+  (0 < cc_ring c)%N ->
+  let st := client_exec c (cinit c) evs in
+  passes_1_6 c st now m ->
+  (snd (receive c st now m) = VDup <-> In (m_id m) (lastn (N.to_nat (cc_ring c)) (recorded c evs))).
+Proof. exact replay_window. Qed.
+Print Assumptions c17_replay_window.
+
+(* positive bound: what reaches a handler is outside the window, and inside the skew window if it carries a
+   timestamp; so a replay with ts <> 0 is suppressed while in the ring and for ever once |now - ts| > skew *)
+Theorem c17_replay_bound : forall c evs now m,
+  (0 < cc_ring c)%N ->
+  let st := client_exec c (cinit c) evs in
+  delivered (snd (cstep c st (CRecv now m))) ->
+  ~ In (m_id m) (lastn (N.to_nat (cc_ring c)) (recorded c evs))
+  /\ (m_ts m <> 0%Z -> (- cc_skew c <= now - m_ts m <= cc_skew c)%Z).
+Proof. exact replay_bound. Qed.
+Print Assumptions c17_replay_bound.
+
+(* OBSERVATION F18 (not hidden): with timestamp 0 ("never stale") nothing but the ring bounds a replay.
+   DedupSize = 2: the same validly signed message is delivered, suppressed when replayed at once, and
+   delivered AGAIN after two other messages were accepted.  The declarative predicate allows it. *)
+Example c17_replay_ts0_redelivered :
+  client_run f18_cfg (cinit f18_cfg) f18_run =
+    [ONoneC; OSubR true; ORecv None [[97; 47; 62]%N]; ORecv None [];
+     ORecv None [[97; 47; 62]%N]; ORecv None [[97; 47; 62]%N]; ORecv None [[97; 47; 62]%N]]
+  /\ nth 2 f18_run (CUnsub [] []) = CRecv 1000 (f18_msg 7)
+  /\ nth 6 f18_run (CUnsub [] []) = CRecv 999000000 (f18_msg 7)
+  /\ spec_C17_client f18_cfg f18_run (client_run f18_cfg (cinit f18_cfg) f18_run) = true.
+Proof. vm_compute. repeat split. Qed.
+
+(* non-vacuity: a run in which a genuine message is delivered (so the hypotheses of c17_forged_dropped and
+   c17_replay_bound hold), a forged one (signed by another key), a stale one, a non-member's and an immediate
+   replay are not, and the recorded list / window are what the theorems talk about *)
+Example c17_client_nonvacuous :
+  let c := mkCC 2 60000 100 65536 0 [[110]; [111]; [112]]%N in
+  let sp := [115]%N in let tp := [97; 47; 98]%N in
+  let mk idb ts who key :=
+    mkMsg sp tp (repeat idb 16) [] ts [9]%N (Some who) (SigOf key (sign_data_of sp tp (repeat idb 16) [] ts [9]%N)) in
+  let evs := [CSetMember sp 1 true; CSub sp [97; 47; 42]%N;
+              CRecv 100000 (mk 1%N 90000%Z 1%N 1%N);      (* genuine, fresh *)
+              CRecv 100001 (mk 1%N 90000%Z 1%N 1%N);      (* replay *)
+              CRecv 100002 (mk 2%N 90000%Z 1%N 2%N);      (* signed by another key *)
+              CRecv 100003 (mk 3%N 10%Z 1%N 1%N);         (* stale *)
+              CRecv 100004 (mk 4%N 0%Z 2%N 2%N)] in       (* not a member *)
+  client_run c (cinit c) evs =
+    [ONoneC; OSubR true; ORecv None [[97; 47; 42]%N]; ORecv None []; ORecv None []; ORecv None []; ORecv None []]
+  /\ recorded c evs = [repeat 1%N 16]
+  /\ delivered (nth 2 (client_run c (cinit c) evs) ONoneC)
+  /\ spec_C17_client c evs (client_run c (cinit c) evs) = true.
+Proof. vm_compute. repeat split. intro H; discriminate H. Qed.
+
+(* The model satisfies the declarative predicate that is applied to the REAL client's observed outputs on
+   every run: for every configuration with DedupSize > 0 (Config.withDefaults guarantees it; hypothesis
+   visible) and EVERY event sequence (Subscribe / unsubscribe / membership changes / received frames at
+   arbitrary times / own Publish), a handler runs iff the message is well-formed, on a valid topic with
+   local interest, from a member, owner-consistent, fresh (or ts = 0), genuinely signed by the claimed
+   identity over its own bytes, and NOT among the last DedupSize recorded ids -- and then exactly the
+   handlers of the matching live patterns run, once each. *)
+From AnySync Require Import Proofs.PubSubClientSpec.
+Theorem c17_model_satisfies_spec_client : forall c evs,
+  (0 < cc_ring c)%N -> spec_C17_client c evs (client_run c (cinit c) evs) = true.
+Proof. exact model_satisfies_spec_client. Qed.
+Print Assumptions c17_model_satisfies_spec_client.
